@@ -241,19 +241,21 @@ func runEngineCase(c EngineCase) Outcome {
 				if f.Site == "prepare-get" {
 					method = "getPayload"
 				}
+				var reaped [][]byte // what CometBFT reaps from its own mempool and hands to PrepareProposal
 				if f.Pooled {
 					if rv, err := node.RelayerView(); err == nil {
 						rp := world.NewAccount(world.DomRelayer, 0)
 						if raw, err := node.Tx(rp, 0, world.TxOpts{}, &bitcointypes.MsgApproveCancellation{Proposer: rv.Proposer, Id: []uint64{940_000 + uint64(i)}}); err == nil {
 							if resp, err := node.CheckTx(raw, false); err == nil && resp.Code == 0 {
 								o.Classes = append(o.Classes, "pooled-tx")
+								reaped = [][]byte{raw}
 							}
 						}
 					}
 				}
 				node.Eng.SetPlan(plan)
 				node.Eng.ArmFaults([]world.Fault{{Method: method, Nth: 0, Kind: kind}})
-				pr, err := node.Prepare(blk.PrepareReq(nil))
+				pr, err := node.Prepare(blk.PrepareReq(reaped))
 				node.Eng.ArmFaults(nil)
 				w.fired++
 				if err != nil {
